@@ -167,6 +167,15 @@ theorem no_pending_after_step (c : NeoxS.Cfg) (s : St) :
 theorem silent_pass (c : NeoxS.Cfg) (s : St) (h : s.steps % c.fus ≠ 0) : trainPass c s = s := by
   exact trainPass_silent c s h
 
+/-- **accumulation / deferred updates**: a training pass that is not the last micro-batch of its
+    accumulation window, or any pass when the factors are updated in `step()` instead of the hooks,
+    issues nothing but the gathers of the sharded activations and output gradients (no factor
+    all-reduce, bucketed or not) -/
+theorem pass_only_gathers (c : NeoxS.Cfg) (s : St)
+    (h : ¬ (c.hook = true ∧ (s.mini + 1) % c.accum = 0)) :
+    ∃ extra, (trainPass c s).acts = s.acts ++ extra ∧ ∀ a ∈ extra, a.kind = .allgather := by
+  exact pass_only_gathers_l c s h
+
 /-- non-vacuity: a 2×2×2 topology with one column/row block per stage meets `NCfgOK` and its script
     is not empty -/
 def demoCfg : NeoxS.Cfg :=
